@@ -1073,8 +1073,35 @@ pub fn build_pool(seed: u64, repo: &str, sz: &PoolSizes, focus: Option<&PoolFocu
         for e in evs.iter().copied() {
             let v = vocab(Some(e));
             let unary: Vec<&str> = v.unary.iter().copied().collect();
+            // what can go wrong next to the new construct: sub-expressions that fail or panic in some evaluator
+            let bad = ["w(0-5)", "0/0", "ln(0-1)", "(0-1)!", "1/0", "sqrt(0-1)", "9223372036854775807+1"];
             for ex in fc.new_examples.iter() {
                 add_expr(&mut pool, &mut r, e, ex.clone(), "new_words", 4);
+                if ex.chars().count() > 60 {
+                    continue;
+                }
+                add_expr(&mut pool, &mut r, e, format!("({})+({})", ex, ex), "new_words", 2);
+                for f in unary.iter().take(6) {
+                    add_expr(&mut pool, &mut r, e, format!("{}({})", f, ex), "new_words", 2);
+                }
+                for p in bad.iter() {
+                    for agg in v.aggr.iter().take(4) {
+                        add_expr(&mut pool, &mut r, e, format!("{}({},{})", agg, ex, p), "new_words", 2);
+                    }
+                    add_expr(&mut pool, &mut r, e, format!("({})+{}", ex, p), "new_words", 2);
+                }
+            }
+            // atoms (a new symbol with a name: `$a`): bound or used next to something that fails
+            for w in fc.new_words.iter().filter(|w| w.chars().count() >= 2 && !w.chars().next().map_or(true, |c| c.is_alphanumeric()) && w.chars().skip(1).all(|c| c.is_alphanumeric())) {
+                for p in bad.iter() {
+                    for agg in v.aggr.iter().take(4) {
+                        add_expr(&mut pool, &mut r, e, format!("{}({}=@,{})", agg, w, p), "new_words", 3);
+                        add_expr(&mut pool, &mut r, e, format!("{}({},{})", agg, w, p), "new_words", 2);
+                    }
+                }
+                for t in [format!("{}=@", w), format!("{}=@+1", w), format!("{}=@;{}", w, w), format!("{}+1", w), format!("2*{}", w), format!("2{}+@", w), format!("{}=@;{}*2", w, w)] {
+                    add_expr(&mut pool, &mut r, e, t, "new_words", 3);
+                }
             }
             for w in fc.new_words.iter() {
                 let mut shapes: Vec<String> = Vec::new();
